@@ -168,7 +168,12 @@ func runScenario(name, tier string) *scenarioResult {
 		if again.seqHash != profs[t].seqHash || fmt.Sprint(again.obs) != fmt.Sprint(profs[t].obs) {
 			seqStable = false
 			if fmt.Sprint(again.obs) != fmt.Sprint(profs[t].obs) {
-				res.Violations = append(res.Violations, violation{Class: "harness/solo-run-nondeterministic", What: fmt.Sprintf("thread %d gives different observations in two solo runs", t), Scenario: name})
+				if len(profs[t].dirty) > 0 {
+					// the first run wrote package-level (or shared) memory and the second, on fresh values, behaves differently
+					res.Violations = append(res.Violations, violation{Class: "interference/fresh-values-affected-by-earlier-calls", What: fmt.Sprintf("thread %d run twice on fresh values gives different observations; the first run wrote %s at %s", t, firstKey(profs[t].changed), profs[t].dirty[0].Site), Scenario: name})
+				} else {
+					res.Violations = append(res.Violations, violation{Class: "harness/solo-run-nondeterministic", What: fmt.Sprintf("thread %d gives different observations in two solo runs", t), Scenario: name})
+				}
 			}
 		}
 		res.SoloPoints = append(res.SoloPoints, profs[t].points)
@@ -180,17 +185,29 @@ func runScenario(name, tier string) *scenarioResult {
 			}
 		}
 	}
-	// rules on the solo footprints
+	// rules on the solo footprints (not for state owned by packages that use sync: it may be properly synchronised)
+	usesSync := len(verifrt.SyncPkgs) > 0
+	syncOwned := func(key string) bool {
+		for p := range verifrt.SyncPkgs {
+			if strings.HasPrefix(key, p+".") || strings.HasPrefix(key, "(*"+p+".") {
+				return true
+			}
+		}
+		return usesSync && strings.Contains(key, "shared:")
+	}
 	for t := 0; t < n; t++ {
 		for k := range profs[t].changed {
-			if strings.HasPrefix(k, "shared:") {
+			if strings.HasPrefix(k, "shared:") || strings.Contains(k, "(*shared:") || strings.Contains(k, "shared:") {
+				if syncOwned(k) {
+					continue
+				}
 				res.Violations = append(res.Violations, violation{Class: "interference/read-only-query-writes-shared-value", What: fmt.Sprintf("thread %d, running alone, changed %s of a value the threads share read-only (first at %s)", t, k, firstDirtySite(profs[t], k)), Scenario: name})
 				break
 			}
 		}
 		for u := 0; u < t; u++ {
 			for k := range profs[t].changed {
-				if profs[u].changed[k] {
+				if profs[u].changed[k] && !syncOwned(k) {
 					res.Violations = append(res.Violations, violation{Class: "interference/two-goroutines-write-the-same-location", What: fmt.Sprintf("threads %d and %d both write %s (unsynchronised writes to one location: a data race whatever the values); writers: %s / %s", u, t, k, firstDirtySite(profs[u], k), firstDirtySite(profs[t], k)), Scenario: name})
 					break
 				}
@@ -258,7 +275,10 @@ func runScenario(name, tier string) *scenarioResult {
 	// every injected point of every thread as a preemption candidate: always when some statement writes the
 	// shared region, otherwise whenever the scenario is small enough (non-vacuity at statement granularity)
 	res.AllPointsBound = -1
-	if !stopped && (anyDirty || totalPoints <= allPtsLimit1) {
+	if usesSync {
+		res.Mode = "api-boundaries only (the library uses sync: preemption inside a call could block on a lock)"
+	}
+	if !stopped && !usesSync && (anyDirty || totalPoints <= allPtsLimit1) {
 		res.Mode = "api-boundaries + every statement-level point"
 		allPts = true
 		for bound := 1; bound <= 2; bound++ {
@@ -289,6 +309,18 @@ func runScenario(name, tier string) *scenarioResult {
 	res.Outcomes = len(outcomes)
 	res.WallS = time.Since(start).Seconds()
 	return res
+}
+
+func firstKey(m map[string]bool) string {
+	ks := make([]string, 0, len(m))
+	for k := range m {
+		ks = append(ks, k)
+	}
+	sort.Strings(ks)
+	if len(ks) == 0 {
+		return "?"
+	}
+	return ks[0]
 }
 
 func hasClass(vs []violation, cl string) bool {
